@@ -1,0 +1,9 @@
+//go:build verif
+
+// Contracts for the verification machinery in /verif (comment-only; compiled only with -tags verif).
+package ast
+
+// ---- C51: source positions are ordered by their offset
+//@ func (Position).Compare
+//@   nofail
+//@   ensures[C51] result == ite(p.Offset < other.Offset, -1, ite(p.Offset > other.Offset, 1, 0))
